@@ -12,6 +12,7 @@ mod worker;
 mod scen;
 mod families;
 mod forge;
+mod fork;
 mod host;
 mod mon_err;
 mod mon_local;
